@@ -28,6 +28,41 @@ def statusAlive : Nat := 1
 def ineligible (self : String) (m : Member) : Bool :=
   m.status != statusAlive || m.protoMax < 5 || m.name == self
 
+/-- One disjunct of the relay candidate filter as written in `relayResponse` (regenerated from the source
+into `SerfModel.Gen.RelayFilter.rejectAtoms`). -/
+inductive FilterAtom where
+  | statusNe (v : Nat)      -- `m.Status != <const>`
+  | statusEq (v : Nat)      -- `m.Status == <const>`
+  | protoMaxLt (n : Nat)    -- `m.ProtocolMax < n`
+  | nameIsSelf              -- `m.Name == localName`
+  deriving DecidableEq, Repr
+
+def FilterAtom.holds (self : String) (m : Member) : FilterAtom → Bool
+  | .statusNe v => m.status != v
+  | .statusEq v => m.status == v
+  | .protoMaxLt n => m.protoMax < n
+  | .nameIsSelf => m.name == self
+
+/-- A member is rejected when any atom holds. -/
+def rejectedBy (atoms : List FilterAtom) (self : String) (m : Member) : Bool :=
+  atoms.any (·.holds self m)
+
+/-- Shape of the probe loop of `kRandomMembers` (regenerated: `SerfModel.Gen.RelayFilter.selectShape`). -/
+structure SelectShape where
+  /-- `i < probeFactor*n` -/
+  probeFactor : Nat
+  /-- the other conjunct of the loop condition -/
+  stopCond : String
+  /-- statements of the loop body in order -/
+  order : List String
+  /-- the field the duplicate test compares -/
+  dedupField : String
+  deriving DecidableEq, Repr
+
+/-- The shape `selectLoop` below transcribes. -/
+def SelectShape.asModelled (s : SelectShape) : Bool :=
+  s.stopCond == "len(kMembers) < k" && s.order == ["pick", "read", "filter", "dedup", "append"] && s.dedupField == "Name"
+
 /-- The body of the `for` loop of `kRandomMembers`; `fuel` = probes left
 (`3*n - i`), `acc` = `kMembers`. -/
 def selectLoop (k : Nat) (ms : List Member) (filt : Member → Bool) :
@@ -45,6 +80,10 @@ def selectLoop (k : Nat) (ms : List Member) (filt : Member → Bool) :
           else if acc.any (fun x => x.name == m.name) then selectLoop k ms filt fuel ps acc
           else selectLoop k ms filt fuel ps (acc ++ [m])
     else acc
+
+/-- `kRandomMembers` with the probe budget factor as a parameter. -/
+def kRandomMembersG (factor : Nat) (k : Nat) (ms : List Member) (filt : Member → Bool) (picks : List Nat) : List Member :=
+  selectLoop k ms filt (factor * ms.length) picks []
 
 /-- `kRandomMembers(k, members, filterFunc)`. -/
 def kRandomMembers (k : Nat) (ms : List Member) (filt : Member → Bool) (picks : List Nat) : List Member :=
